@@ -55,9 +55,9 @@ impl Engine for ModelEngine {
   }
   fn budget(&self, thorough: bool) -> (u64, f64) {
     if thorough {
-      (2_000_000, 600.0)
+      (5_000_000, 600.0)
     } else {
-      (20_000, 40.0)
+      (100_000, 40.0)
     }
   }
   fn probes(&self) -> Vec<&'static str> {
